@@ -52,7 +52,7 @@ func (provider *Provider) Base() (*template.Template, error) {
 	baseTemplate := provider.baseTemplate
 	provider.baseMutex.RUnlock()
 	if baseTemplate != nil {
-		return baseTemplate, nil
+		return baseTemplate.Clone()
 	}
 	return provider.base()
 }
@@ -61,7 +61,7 @@ func (provider *Provider) base() (baseTemplate *template.Template, err error) {
 	provider.baseMutex.Lock()
 	defer provider.baseMutex.Unlock()
 	if provider.baseTemplate != nil {
-		return provider.baseTemplate, nil
+		return provider.baseTemplate.Clone()
 	}
 	baseTemplate = template.New("baseTemplate")
 	baseTemplate.Funcs(provider.funcs)
@@ -78,7 +78,10 @@ func (provider *Provider) base() (baseTemplate *template.Template, err error) {
 		return nil, err
 	}
 	if provider.isCached {
+		// the cached template stays pristine (html/template cannot Clone a template that has been
+		// executed): callers get their own copy
 		provider.baseTemplate = baseTemplate
+		return baseTemplate.Clone()
 	}
 	return baseTemplate, nil
 }
@@ -93,7 +96,7 @@ func (provider *Provider) Layout(name string) (*template.Template, error) {
 	tmpl, ok := provider.layouts[name]
 	provider.layoutMutex.RUnlock()
 	if ok {
-		return tmpl, nil
+		return tmpl.Clone()
 	}
 	return provider.layout(name)
 }
@@ -106,7 +109,7 @@ func (provider *Provider) layout(name string) (layoutTemplate *template.Template
 	provider.layoutMutex.Lock()
 	defer provider.layoutMutex.Unlock()
 	if layoutTemplate, ok = provider.layouts[name]; ok {
-		return layoutTemplate, nil
+		return layoutTemplate.Clone()
 	}
 	if layoutTemplate, err = provider.Base(); err != nil {
 		return nil, err
@@ -129,6 +132,7 @@ func (provider *Provider) layout(name string) (layoutTemplate *template.Template
 	}
 	if provider.isCached {
 		provider.layouts[name] = layoutTemplate
+		return layoutTemplate.Clone()
 	}
 	return layoutTemplate, nil
 }
